@@ -217,7 +217,7 @@ def _prepend_package_lua(orig_ast, package_lua):
     package_header = []
     package_header.extend(REQUIRE_LUA_PREAMBLE_PACKAGE)
     for pth, ast in package_lua.items():
-        escaped_pth = pth.replace(b'"', b'\\"')
+        escaped_pth = pth.replace(b'\\', b'\\\\').replace(b'"', b'\\"')
         package_header.append(
             b'package._c["' + escaped_pth + b'"]=function()\n')
         package_lines = list(ast.to_lines())
